@@ -44,6 +44,10 @@ def run_groups(groups, workdir, per_tu=60, verbose=False, bisect=True):
         gi, cs = meta[name]
         if r["rc_compile"] != 0 and bisect and len(cs) > 1:
             retry += [(gi, [c]) for c in cs]
+        elif r["rc_compile"] == 0 and r["rc_run"] not in (0, None) and bisect and len(cs) > 1:
+            # the unit compiled but died at run time (signal / abort): re-run its calls one per unit so that the
+            # call that crashes is identified — a crash of the implementation on one input is a failing input
+            retry += [(gi, [c]) for c in cs]
         else:
             out.append({"group": groups[gi], "calls": cs, "res": r})
     if retry:
@@ -55,6 +59,8 @@ def run_groups(groups, workdir, per_tu=60, verbose=False, bisect=True):
             st = per_group.setdefault(gi, [0, 0]); st[1] += 1
             if r["rc_compile"] != 0:
                 r["rejected"] = True; st[0] += 1
+            elif r["rc_run"] not in (0, None):
+                r["crashed"] = True
             out.append({"group": groups[gi], "calls": cs, "res": r})
         # a group in which (almost) everything is rejected is a harness problem, not a library decision
         for gi, (bad, tot) in per_group.items():
@@ -86,7 +92,7 @@ def compare_with_model(results, v, ignore=()):
             infra.append({"group": g["key"], "what": "compile", "calls": r["calls"][:3], "out": res["compile_out"][-3000:]})
             continue
         if res["rc_run"] != 0:
-            infra.append({"group": g["key"], "what": "run rc=%s" % res["rc_run"], "calls": r["calls"][:3],
+            infra.append({"group": g["key"], "what": "run rc=%s" % res["rc_run"], "calls": r["calls"][:3], "crashed_single": bool(res.get("crashed")),
                           "out": (res.get("out", "")[-1500:] + res.get("err", ""))})
         for line in res["out"].split("\n"):
             if "|" not in line:
